@@ -111,6 +111,16 @@ func Leaves() []NC {
 		NC{"Any{emptyobject}", func() schema.Constraint { return schema.AnyExpression{OfType: cty.EmptyObject} }},
 		NC{"Any{set_object}", func() schema.Constraint { return schema.AnyExpression{OfType: cty.Set(objType)} }},
 		NC{"Any{map_dynamic}", func() schema.Constraint { return schema.AnyExpression{OfType: cty.Map(cty.DynamicPseudoType)} }},
+		NC{"Any{object_any_mix}", func() schema.Constraint {
+			return schema.AnyExpression{OfType: cty.Object(map[string]cty.Type{"extra": cty.DynamicPseudoType, "name": cty.String, "zone": cty.String})}
+		}},
+		NC{"LiteralType{object_optional}", func() schema.Constraint {
+			return schema.LiteralType{Type: cty.ObjectWithOptionalAttrs(map[string]cty.Type{"name": cty.String, "size": cty.Number}, []string{"size"})}
+		}},
+		NC{"Any{object_optional}", func() schema.Constraint {
+			return schema.AnyExpression{OfType: cty.ObjectWithOptionalAttrs(map[string]cty.Type{"name": cty.String, "size": cty.Number}, []string{"size"})}
+		}},
+		NC{"Any{map_object}", func() schema.Constraint { return schema.AnyExpression{OfType: cty.Map(objType)} }},
 		NC{"Reference{OfType string,OfScopeId sa}", func() schema.Constraint { return schema.Reference{OfType: cty.String, OfScopeId: lang.ScopeId("sa")} }},
 	)
 	for _, nt := range litTypes[4:9] {
@@ -198,7 +208,10 @@ func degenerates() []NC {
 			return schema.Object{Attributes: schema.ObjectAttributes{
 				"\u00e9t\u00e9": {Constraint: schema.LiteralType{Type: cty.String}, IsOptional: true},
 				"\u00e9cole":    {Constraint: schema.AnyExpression{OfType: cty.String}, IsOptional: true},
-				"foo":           {Constraint: schema.LiteralType{Type: cty.Bool}, IsOptional: true}}}
+				"foo":           {Constraint: schema.LiteralType{Type: cty.Bool}, IsOptional: true},
+				// names that are not in normal form C: a decomposed accent (3 bytes, 2 when composed), KELVIN SIGN
+				"e\u0301lan":  {Constraint: schema.LiteralType{Type: cty.String}, IsOptional: true},
+				"\u212aelvin": {Constraint: schema.LiteralType{Type: cty.String}, IsOptional: true}}}
 		}},
 		// tuples whose later elements cannot be pre-filled, behind one that can
 		{"Tuple{LiteralType{string},Reference{OfType string}}", func() schema.Constraint {
